@@ -115,9 +115,26 @@ func compile(expr string, c compileConfig) (*Regexp, error) {
 		MatchTimeout:  DefaultMatchTimeout,
 		optimizations: c.optimizations,
 	}
-	re.stringPrefixFilter = newStringPrefixFilter(code)
+	// the raw-string filter moves the search start to its candidate, which is
+	// also what \G refers to: patterns using \G must search from the real start
+	if !usesStartAnchor(tree.Root) {
+		re.stringPrefixFilter = newStringPrefixFilter(code)
+	}
 	re.initCaches()
 	return re, nil
+}
+
+// usesStartAnchor reports whether \G occurs anywhere in the pattern.
+func usesStartAnchor(n *syntax.RegexNode) bool {
+	if n.T == syntax.NtStart {
+		return true
+	}
+	for _, c := range n.Children {
+		if usesStartAnchor(c) {
+			return true
+		}
+	}
+	return false
 }
 
 func makeQuickCode(code *syntax.Code) *syntax.Code {
